@@ -757,7 +757,11 @@ pub fn run(cx: &mut Cx) {
         //      asserted (flag on + every template autoescaped by suffix, flag off + none): what a mixed render does is
         //      not stated by the property
         if case % 3 == 0 {
-            for (flag, ext) in [(true, "html"), (false, "txt")] {
+            // … except for `render_component`, whose flag is the setting of the whole render it starts: nested component
+            // calls and the templates included below it follow the flag, whatever their own suffix says (`render_str`, whose
+            // includes follow their own suffix, is a different entry point and is left alone)
+            for (flag, ext) in [(true, "html"), (false, "txt"), (true, "txt"), (false, "html")] {
+                let mixed = flag != (ext == "html");
                 let parts = vec![
                     (format!("comps.{ext}"), format!("{{% component card(a) %}}[{{{{ a }}}}|{{% include \"part.{ext}\" %}}|{{{{ <inner a={{a}} /> }}}}|{{{{ body | default(value=\"\") }}}}]{{% endcomponent %}}{{% component inner(a) %}}({{{{ a }}}}{{% include \"part.{ext}\" %}}){{% endcomponent %}}")),
                     (format!("part.{ext}"), "p{{ a }}{% set c %}{{ a }}{% endset %}{{ c }}".to_string()),
@@ -771,6 +775,9 @@ pub fn run(cx: &mut Cx) {
                 let mut c2 = Context::new();
                 c2.insert("a", "β&\"<'");
                 for which in ["render_component", "render"] {
+                    if mixed && which == "render" {
+                        continue;
+                    }
                     let b0 = ESC_CALLS.load(Ordering::Relaxed);
                     cx.eval();
                     let r = guard(|| match which {
@@ -782,7 +789,7 @@ pub fn run(cx: &mut Cx) {
                             let calls = ESC_CALLS.load(Ordering::Relaxed) - b0;
                             let ds = depths(&o);
                             cx.count("per_call_flag_checks", 1);
-                            cx.cell(format!("api-flag|{which}|{flag}"));
+                            cx.cell(format!("api-flag|{which}|{flag}|{}", if mixed { "suffix-disagrees" } else { "suffix-agrees" }));
                             let ok = if flag { !ds.is_empty() && ds.iter().all(|(_, d)| *d == 1) } else { ds.iter().all(|(_, d)| *d == 0) && calls == 0 };
                             if !ok {
                                 cx.violation(&format!("C01/component-include-world-escaping/{which}"), format!("{which} (autoescape {flag} everywhere): {calls} escaper call(s), marked output {o:?}"), json!({"templates": parts, "flag": flag, "api": which}));
